@@ -30,8 +30,8 @@ class P:
         return P(name, 'const', value=value)
 
     @staticmethod
-    def map(name, ref=None):
-        return P(name, 'map', ref=ref)
+    def map(name, ref=None, **kw):
+        return P(name, 'map', ref=ref, **kw)
 
     @staticmethod
     def list(name, ref=None):
@@ -65,8 +65,9 @@ class Raises:
 
 
 class Loop:
-    def __init__(self, inv, mod_locals=(), mod_fields=(), decreases=None, mod_objs=None, note='', mod_at=None):
+    def __init__(self, inv, mod_locals=(), mod_fields=(), decreases=None, mod_objs=None, note='', mod_at=None, mod_where=None):
         self.mod_at = mod_at            # optional fn(c, L) -> [(field, [refs])]: fields havocked only at these objects
+        self.mod_where = mod_where      # optional fn(c, L) -> [(field, pred(r) -> Bool)]: fields havocked at the objects satisfying pred
         self.inv = inv                  # fn(c, L) -> list of (name, Bool) or Bool
         self.mod_locals = tuple(mod_locals)
         self.mod_fields = tuple(mod_fields)   # heap fields havocked by the loop (whole arrays)
@@ -157,7 +158,11 @@ class SpecCtx:
         n = getattr(self, 'nalloc', None)
         if n is None:
             return r > 0
-        return z3.Or(r > 0, z3.And(r < 0, r >= -n), r < -1000000)
+        fl = getattr(self, 'floor', None)
+        if fl is None:
+            return z3.Or(r > 0, z3.And(r < 0, r >= -n), r < -1000000)
+        # objects created by callees so far have identities in [floor, -10^6); everything below the floor does not exist yet
+        return z3.Or(r > 0, z3.And(r < 0, r >= -n), z3.And(r < -1000000, r >= fl))
 
     def cid(self, clsname):
         return self.eng.class_id(clsname)
